@@ -1411,3 +1411,92 @@ func (c *Ctx) ruleRefusalCloses(rule string) {
 		c.R.Unresolved(rule, sprintf("rejecting returns of the function that registers a run's signal channel (%d found, at least 2 expected)", n))
 	}
 }
+
+// R-READFIRST (C06 "every Execute returns ... under every interleaving of ... signal traffic in both directions"): while
+// no run is pending the client reads nothing, and whatever the plugin still has to say (errors for late signals) stays
+// in its output. A peer whose writer is stuck on an unread message eventually stops reading too. An Execute that writes
+// its work start into that before anybody reads the plugin's output again waits for the peer's reader, which waits
+// for its writer, which waits for a reader that starts only after the write. Obligation: in every client function
+// that both starts the read loop (calls something that reaches the `go` of the read loop) and writes to the connection,
+// the call that starts the read loop dominates the write.
+func (c *Ctx) ruleReadFirst(rule string) {
+	ro := c.roles()
+	if !ro.ok || ro.spawnFn == nil {
+		c.R.Unresolved(rule, "function that starts the client's read loop")
+		return
+	}
+	encodes := func(f *ssa.Function) bool {
+		for g := range c.reachSync(f) {
+			for _, b := range g.Blocks {
+				for _, in := range b.Instrs {
+					if call, ok := in.(*ssa.Call); ok && strings.HasSuffix(core.StaticCalleeName(&call.Call), "cbor/v2.Encoder).Encode") {
+						return true
+					}
+				}
+			}
+		}
+		return false
+	}
+	spawns := func(f *ssa.Function) bool { return c.reachSync(f)[ro.spawnFn] }
+	inLoop := c.M.Reachable([]*ssa.Function{ro.readLoop}, nil)
+	// a callee that reads its reply itself (the legacy protocol: no read loop, no run IDs) needs no read loop
+	readsItself := func(f *ssa.Function) bool {
+		for g := range c.reachSync(f) {
+			if inLoop[g] {
+				continue
+			}
+			for _, b := range g.Blocks {
+				for _, in := range b.Instrs {
+					if call, ok := in.(*ssa.Call); ok && strings.HasSuffix(core.StaticCalleeName(&call.Call), "cbor/v2.Decoder).Decode") {
+						return true
+					}
+				}
+			}
+		}
+		return false
+	}
+	n := 0
+	for _, fn := range c.M.SortedFuncs(c.scopePkg("atp")) {
+		if !c.isMethodOf(fn, ro.clientT) {
+			continue
+		}
+		var starts, writes []*ssa.Call
+		for _, b := range fn.Blocks {
+			for _, in := range b.Instrs {
+				call, ok := in.(*ssa.Call)
+				if !ok || call.Call.StaticCallee() == nil {
+					continue
+				}
+				callee := call.Call.StaticCallee()
+				switch {
+				case spawns(callee):
+					starts = append(starts, call)
+				case c.methodOrClosureOf(callee, ro.clientT) && encodes(callee) && !readsItself(callee):
+					writes = append(writes, call)
+				}
+			}
+		}
+		if len(starts) == 0 {
+			continue
+		}
+		for i, w := range writes {
+			n++
+			k := key(rule, c.M.Key(fn), sprintf("write #%d to the connection is made with the read loop running", i+1))
+			ok := false
+			for _, st := range starts {
+				if instrDominates(st, w) {
+					ok = true
+				}
+			}
+			if ok {
+				c.R.Ok(rule, k, c.M.InstrPos(w), "write of a run's work start", "dominated by the call that registers the run and starts the read loop if none is running")
+			} else {
+				c.R.Bad(rule, k, c.M.InstrPos(w), "a run's work start is written before anybody reads the plugin's output",
+					"on an idle client unread messages of the plugin can be backed up; the plugin then no longer reads its input, this write blocks, and the read loop that would drain the plugin is only started after the write: Execute never returns")
+			}
+		}
+	}
+	if n == 0 {
+		c.R.Unresolved(rule, "a client function that starts the read loop and writes to the connection")
+	}
+}
